@@ -6,6 +6,25 @@ PID = "C15"
 THEORY = D.THEORY + ["theories/Dir/Refs.v"]
 
 
+def tree_cases(rng, sizes, prefix="t"):
+    """a sort key that is itself a reference (a tree sorted on (parent, id)): the store is re-sorted until stable and the
+    positions must be refreshed after every pass. Judged relationally (no predicted order): see refsort_oracle"""
+    cases = []
+    for k, nent in enumerate(sizes):
+        depth, parent = [0], [0]                           # node 0 is the root and its own parent
+        for j in range(1, nent):
+            p = rng.choice([q for q in range(j) if depth[q] < 6])
+            parent.append(p); depth.append(depth[p] + 1)
+        ids = rng.sample(range(nent * 3 + 5), nent)
+        order = list(range(nent)); rng.shuffle(order)      # insertion order
+        where = {node: pos for pos, node in enumerate(order)}
+        c = dict(id="%s%d" % (prefix, k), stores=["plain"], variant_order=[], indexes=[], finds=[], sort=["parent", "id"], refsort=True,
+                 props=[dict(variant=None, kind="u", name="id"), dict(variant=None, kind="u", name="parent")],
+                 entries=[dict(variant=None, values={"id": ("u", ids[node]), "parent": ("r", where[parent[node]])}) for node in order])
+        cases.append(c)
+    return cases
+
+
 def gen_cases(seed, tier):
     rng = random.Random(seed)
     cases = []
@@ -27,20 +46,7 @@ def gen_cases(seed, tier):
                  "chain": (j + 1) % nent, "first": 0, "last": nent - 1}[shape]
             c["entries"].append(dict(variant=None, values={"key": ("u", keys[j]), "ref": ("r", t), "ref2": ("r", rng.randrange(nent))}))
         cases.append(c)
-    # a sort key that is itself a reference (a tree sorted on (parent, id)): the store is re-sorted until stable and the
-    # positions must be refreshed after every pass. Judged relationally (no predicted order): see refsort_oracle
-    for k, nent in enumerate([4, 9, 40, 300] if tier == "quick" else [4, 4, 9, 9, 40, 40, 300, 300, 1500]):
-        depth, parent = [0], [0]                           # node 0 is the root and its own parent
-        for j in range(1, nent):
-            p = rng.choice([q for q in range(j) if depth[q] < 6])
-            parent.append(p); depth.append(depth[p] + 1)
-        ids = rng.sample(range(nent * 3 + 5), nent)
-        order = list(range(nent)); rng.shuffle(order)      # insertion order
-        where = {node: pos for pos, node in enumerate(order)}
-        c = dict(id="t%d" % k, stores=["plain"], variant_order=[], indexes=[], finds=[], sort=["parent", "id"], refsort=True,
-                 props=[dict(variant=None, kind="u", name="id"), dict(variant=None, kind="u", name="parent")],
-                 entries=[dict(variant=None, values={"id": ("u", ids[node]), "parent": ("r", where[parent[node]])}) for node in order])
-        cases.append(c)
+    cases += tree_cases(rng, [4, 9, 40, 300] if tier == "quick" else [4, 4, 9, 9, 40, 40, 300, 300, 1500])
     return cases
 
 
